@@ -104,7 +104,7 @@ package redisemu
 //@ prop C09
 //@ safetyprop none
 //@ requires ctxOK(ctx) && ctx.cs.watches != nil
-//@ requires [C08,C16] unlocked: !held && lockMode(ctx.dsc)
+//@ requires [C08,C16] unlocked: lockMode(ctx.dsc)
 //@ requires !mutated && !bumped && !removedKey
 //@ modifies *
 //@ ensures [C09] refused.in.multi: old(ctx.multi) ==> istype(output.data, respErrorString) && ctx.cs.watches == old(ctx.cs.watches) && ctx.cs.cmdQueue == old(ctx.cs.cmdQueue)
@@ -121,3 +121,56 @@ package redisemu
 //@ func respValue.String
 //@ trusted formats the value
 //@ pure
+
+// C09 / C08: commands that take the store exclusively by themselves (CLIENT
+// LIST, CLIENT INFO through cmdContext.info) must not do so when they are
+// replayed by EXEC, which already owns the store: sync.Mutex is not
+// re-entrant, the connection would wait for itself forever.
+//@ func cmdContext.info
+//@ prop C09 C08
+//@ safetyprop none
+//@ requires ctx != nil && ctx.dsc != nil && ctx.dsc.ds != nil && cs != nil
+//@ requires [C09,C08] not.owner: !held && lockMode(ctx.dsc)
+//@ modifies *
+//@ ensures !held && lockMode(ctx.dsc)
+
+//@ func cmdContext.infoUnlocked
+//@ trusted formats one line of CLIENT LIST from the connection's state; reads only
+//@ requires ctx != nil && cs != nil
+//@ requires [C08,C16] owner: held
+//@ modifies alloc
+
+// the walk over the client registry keeps the caller's lock state, and so must the visitor
+//@ func processAllClients
+//@ prop C09 C08
+//@ safetyprop none
+//@ requires free registry: forall k int64 :: haskey(clients, k) ==> clients[k] != nil && clients[k].client != nil
+//@ callback op
+//@ requires held == old(held)
+//@ requires arg1 != nil
+//@ modifies *
+//@ ensures held == old(held)
+//@ endcallback
+//@ modifies *
+//@ loop 1 invariant held == old(held)
+//@ ensures held == old(held)
+
+// CLIENT is not a transaction-control command, so a context carrying the multi
+// flag is being replayed by EXEC (store owned), and one without it runs plainly
+//@ func fnClientList
+//@ prop C09 C08
+//@ safetyprop none
+//@ requires ctx != nil && ctx.dsc != nil && ctx.dsc.ds != nil && ctx.cs != nil
+//@ requires lockMode(ctx.dsc)
+//@ requires free replay: ctx.multi == held
+//@ modifies *
+//@ ensures [C09] lock.kept: held == old(held)
+
+//@ func fnClientInfo
+//@ prop C09 C08
+//@ safetyprop none
+//@ requires ctx != nil && ctx.dsc != nil && ctx.dsc.ds != nil && ctx.cs != nil
+//@ requires lockMode(ctx.dsc)
+//@ requires free replay: ctx.multi == held
+//@ modifies *
+//@ ensures [C09] lock.kept: held == old(held)
